@@ -5,7 +5,7 @@ harness modules of /verif/harness injected (DESIGN.md section 2).
 The overlay only ADDS lines:
   * `#[cfg(kani)] mod kani_harness;` (or `mod kani_support;`) appended to the
     parent module file of every directory found under /verif/harness,
-  * `#![cfg_attr(kani, recursion_limit = "512")]` prepended to lib.rs,
+  * `#![cfg_attr(kani, recursion_limit = "100000")]` prepended to lib.rs,
   * every `*.inject.rs` file found next to a harness module is appended verbatim
     to the parent module file (verification-only constructors, all `#[cfg(kani)]`).
 Nothing is written to /repo.
@@ -16,9 +16,11 @@ import subprocess
 import sys
 import tempfile
 
+sys.path.insert(0, os.path.dirname(os.path.abspath(__file__)))
+
 VERIF = os.path.dirname(os.path.dirname(os.path.abspath(__file__)))
 REPO = os.environ.get("VERIF_REPO", "/repo")
-HARNESS_ROOT = os.path.join(VERIF, "harness")
+HARNESS_ROOT = os.environ.get("VERIF_HARNESS_ROOT", os.path.join(VERIF, "harness"))
 SCRATCH_BASE = os.environ.get("VERIF_SCRATCH", "/var/tmp")
 
 
@@ -113,6 +115,19 @@ def _apply_container_model(ovl):
     return problems
 
 
+def _apply_run_stubs(ovl, harness_root):
+    """Append the generated single-step stub set for `Evaluator::run` (tools/runstubs.py) to the eval sources."""
+    import runstubs
+    hdir = os.path.join(harness_root, "rsjsonnet-lang", "src", "program", "eval", "kani_harness")
+    if not os.path.isdir(hdir):
+        return []
+    per_file, problems, _ = runstubs.generate(ovl, hdir)
+    for fn, code in per_file.items():
+        with open(os.path.join(ovl, "rsjsonnet-lang", "src", "program", "eval", fn), "a") as f:
+            f.write(code)
+    return problems
+
+
 def make_overlay(tag="ovl", harness_root=HARNESS_ROOT, repo=REPO):
     """Returns (overlay_dir, problems). The caller removes overlay_dir."""
     os.makedirs(SCRATCH_BASE, exist_ok=True)
@@ -146,11 +161,12 @@ def make_overlay(tag="ovl", harness_root=HARNESS_ROOT, repo=REPO):
         injected.append(rel)
         dirnames[:] = []
     problems += _apply_container_model(ovl)
+    problems += _apply_run_stubs(ovl, harness_root)
     for crate in ("rsjsonnet-lang", "rsjsonnet-front"):
         lib = os.path.join(ovl, crate, "src", "lib.rs")
         if os.path.exists(lib):
             src = open(lib).read()
-            open(lib, "w").write('#![cfg_attr(kani, recursion_limit = "512")]\n#![cfg_attr(kani, allow(unexpected_cfgs, dead_code, unused_imports, unreachable_pub))]\n' + src)
+            open(lib, "w").write('#![cfg_attr(kani, recursion_limit = "100000")]\n#![cfg_attr(kani, allow(unexpected_cfgs, dead_code, unused_imports, unreachable_pub))]\n' + src)
     # cargo must not look for a parent workspace, and must stay offline
     os.makedirs(os.path.join(ovl, ".cargo"), exist_ok=True)
     with open(os.path.join(ovl, ".cargo", "config.toml"), "a") as f:
